@@ -7,14 +7,14 @@ ids = [p['id'] for p in props]
 
 LS = "lock-step interpreter over a parked (manually stepped) cache under a virtual clock, run against a reference model (E1)"
 checks = {
- "C01": ("model-based stateful PBT (proptest): lock-step model + cost-bound invariants", LS+"; predicates: charged total == sum of charges at every step, every admission restores total <= max_cost, oversize items never admitted, max_cost()/update_max_cost() effective; plus real-thread stress with a monitor thread", "6.C01"),
+ "C01": ("model-based stateful PBT (proptest): lock-step model + cost-bound invariants", LS+"; predicates: charged total == sum of charges at every step, every admission restores total <= max_cost, oversize items never admitted, max_cost()/update_max_cost() effective; plus real-thread stress with a monitor thread; plus a probe with generated costs at the top of the i64 range, one child process per case (known finding D17 is reported there as a KNOWN-FINDING line)", "6.C01"),
  "C02": ("model-based stateful PBT (proptest): lock-step model + value-tag history oracle", LS+"; every lookup compared with the model (exact when quiescent), values uniquely tagged so a foreign, unaccepted, called-back or pre-remove/pre-clear value is recognised; plus real-thread stress with inline tag checks", "6.C02"),
  "C03": ("model-based stateful PBT (proptest) under a virtual clock", LS+"; exact deadlines: served-after-TTL, remaining ttl equality (get_ttl and ValueRef::ttl), no-TTL entries never lost to time, deadline replacement on re-insert", "6.C03"),
  "C04": ("model-based stateful PBT (proptest): differential against an exact map with deadlines", LS+" with a buffer that never fills, ample capacity (a third) or tight capacity judged while the combined cost has never exceeded max_cost; every key looked up, no reject, evict only for expired entries, admitted-with-room stays", "6.C04"),
  "C05": ("model-based stateful PBT (proptest) with a periodic virtual-time cleanup schedule", LS+"; periodic ticks (100ms..3s) on the virtual time line, also over a non-empty insert buffer and with client actions interposed inside the sweep: overdue entries must be reclaimed, unexpired ones never, exactly one on_evict with value and charge", "6.C05"),
  "C06": ("stateful PBT (proptest): schedule-mode lock-step + yield-point interposition, invariant at quiescence", LS+" in schedule mode plus E2 interposition at named yield points; resident keys == charged keys == len() at every quiescent point; plus real-thread stress", "6.C06"),
  "C07": ("PBT (proptest) over the policy's add(): validity predicates from estimates + per-round observer", "component engine (E4) on a parked policy through the verif facade", "6.C07"),
- "C08": ("model-based stateful PBT (proptest): conservation law over uniquely tagged values and a recording callback", LS+"; at every quiescent point each accepted value is resident or was handed to exactly one callback of the right kind; plus real-thread stress", "6.C08"),
+ "C08": ("model-based stateful PBT (proptest): conservation law over uniquely tagged values and a recording callback", LS+"; at every quiescent point each accepted value is resident or was handed to exactly one callback of the right kind; plus real-thread stress; plus a scale engine (one cache, more than 100 000 admissions, then a shrunken budget)", "6.C08"),
  "C09": ("model-based stateful PBT (proptest) over a family of validators", LS+"; insert_if_present on absent keys changes nothing, vetoed writes leave value and deadline untouched (model-based, metamorphic twin without the vetoed writes, and a model-free in-place-replacement invariant that also runs on colliding key tables)", "6.C09"),
  "C11": ("model-based stateful PBT (proptest): clear() with buffered work, differential against an emptied model", LS+"; after clear() nothing written before is retrievable, counters restart, the model continues from empty", "6.C11"),
  "C13": ("PBT (proptest): differential against ideal exact counters with saturation and halving", "component engine (E4) on CountMinSketch and TinyLFU through the verif facade; inside the cache: lock-step interpreter with a parked policy worker (estimate >= recorded, aging window position) and real-thread Lookups stress", "6.C13"),
@@ -48,12 +48,12 @@ m = {
  },
  "engines": [
   {"name": "lockstep", "path": "harness/src/lockstep.rs", "serves_properties": [i for i in ids if i in ("C01","C02","C03","C04","C05","C06","C08","C09","C10","C11","C13","C14","C15","C16","C17","C18","C19","C20")], "kind_free_text": "E1/E2: proptest-generated (config x op sequence) cases executed in lock-step on a parked sync/async cache and on a reference model, virtual clock by clock_gettime interposition"},
-  {"name": "component", "path": "harness/src/comp.rs", "serves_properties": ["C03","C04","C07","C09","C13","C14","C16","C17","C18","C20"], "kind_free_text": "E4: proptest generators driving the crate-private estimators and the policy through the verif facade; E4b: generated quiescent histories on caches of six value types (unit type to heap values) built with default everything, against an exact map"},
-  {"name": "stress", "path": "harness/src/stress.rs", "serves_properties": ["C01","C02","C05","C06","C08","C09","C10","C11","C12","C13","C15","C17","C19","C20"], "kind_free_text": "E3: generated multi-thread scripts against caches with real workers (sync, tokio mt/ct, async-std, thread-per-task), in child processes; kinds Invariants, Barrier, WaitRace, Close, Config, Reclaim, Validated; history invariants inline and at quiescence, state evidence for hangs"},
+  {"name": "component", "path": "harness/src/comp.rs", "serves_properties": ["C02","C03","C04","C07","C08","C09","C13","C14","C16","C17","C18","C20"], "kind_free_text": "E4: proptest generators driving the crate-private estimators and the policy through the verif facade; E4b: generated quiescent histories on caches of six value types (unit type to heap values) built with default everything, against an exact map"},
+  {"name": "stress", "path": "harness/src/stress.rs", "serves_properties": ["C01","C02","C04","C05","C06","C08","C09","C10","C11","C12","C13","C15","C16","C17","C18","C19","C20"], "kind_free_text": "E3: generated multi-thread scripts against caches with real workers (sync, tokio mt/ct, async-std, thread-per-task), in child processes; kinds Invariants, Barrier, WaitRace, Close, Config, Reclaim, Validated; history invariants inline and at quiescence, state evidence for hangs"},
   {"name": "fuzz", "path": "fuzz/", "serves_properties": ["C01","C02","C03","C04","C05","C06","C07","C08","C09","C11","C13","C14","C15","C16","C17","C18"], "kind_free_text": "E5: cargo-fuzz/libFuzzer targets `lockstep` and `estimators` behind hand-written arbitrary::Unstructured decoders, oracle inside the target, run by the thorough tier (VERIF_FUZZ_SECS, default 90 s)"},
  ],
  "checks": [],
- "notes": "Every check is `./check <ID> <quick|thorough>`; exit 0 held, 1 with a VIOLATION line, 2 inconclusive/infrastructure. Replays: ./check <ID> --replay <file>. Known findings: known_findings.json.",
+ "notes": "Every check is `./check <ID> <quick|thorough>`; exit 0 held, 1 with a VIOLATION line, 2 inconclusive/infrastructure. Replays: ./check <ID> --replay <file>. Known findings: known_findings.json (one open entry: D17, C01 - the C01 check prints a KNOWN-FINDING line for it and exits 0; all other entries are `fixed`).",
  "not_applicable": [],
 }
 for i in ids:
